@@ -822,6 +822,14 @@ class ExprMixin:
             tn = ast.unparse(n.args[1]) if len(n.args) > 1 else "?"
             return V(("bool", ("isinstance", args[0], tn))), st
         if name == "hasattr":
+            # a path never has file methods, an open handle always has
+            if len(args) > 1 and args[0] and all(is_const(a) and a[1] in ("read", "write", "seek", "tell", "close", "readline") for a in args[1]):
+                kinds = {("path" if (is_rooted(t) or tag(t) in ("join", "sibling", "parent", "tmpname", "abspath")) else
+                          "handle" if tag(t) in ("handle", "tmpfile") else "?") for t in args[0]}
+                if kinds == {"path"}:
+                    return V(FALSE), st
+                if kinds == {"handle"}:
+                    return V(TRUE), st
             return V(("bool", ("hasattr", args[0], args[1] if len(args) > 1 else EMPTY))), st
         if name == "getattr":
             res = set()
@@ -1024,6 +1032,11 @@ class ExprMixin:
                 return self.mk_path([V(r)] + args, st), st
             if meth in ("lower", "strip", "upper", "replace"):
                 return V(("strop", meth, r)), st
+            if meth in ("tell", "seek", "read", "close", "readline", "readlines", "write", "fileno", "flush", "strip", "encode", "decode"):
+                # a file/str method on something that is a path on this abstract path: an
+                # infeasible branch of an `hasattr(obj, "read")`-style dispatch; it would raise
+                self.raise_star(st, out)
+                return V(("callres", meth, n.lineno)), st
             self.problem(f"{self.p.loc(frame.func, n)}: pathlib method .{meth}() on a store path is not in the primitive table")
             return V(("callres", meth, n.lineno)), st
         if meth in ("lower", "upper", "strip", "replace", "rstrip", "lstrip"):
@@ -1206,7 +1219,7 @@ class ExprMixin:
         if q == "FileHashStore._shard":
             a = args[1:] if args and any(tag(t) == "self" for t in args[0]) else args
             x = a[0] if a else EMPTY
-            self.raise_star(st, out)
+            # slicing a string does not raise (a non-string digest is a type error, out of scope)
             return frozenset(("shard", t) for t in x), st
         if q == "FileHashStore._cast_to_bytes":
             a = args[1:] if args and any(tag(t) == "self" for t in args[0]) else args
